@@ -85,6 +85,11 @@ class Ctx:
     def violation(self, key, what, replay_obj=None):
         self.violations.append((key, what, replay_obj))
 
+    def fresh_violations(self):
+        """violations recorded so far that no open known finding covers"""
+        open_keys = {f["key"] for f in self.findings if f.get("status") == "open"}
+        return [v for v in self.violations if v[0] not in open_keys]
+
     def note(self, s):
         self.notes.append(s)
         print("note: " + s)
